@@ -72,7 +72,7 @@ def fingerprint(obj, _depth=0):
         items += [(k, getattr(obj, k)) for k in slots if hasattr(obj, k)]
     if d is None and not slots:
         return ("obj", type(obj).__name__, repr(obj))
-    IGN = {"_circuit", "_hash", "_cached"}
+    IGN = {"_circuit", "_circuits", "_is_ising", "_hash", "_cached"}  # lazily cached, not observable state
     return (
         "obj",
         type(obj).__name__,
